@@ -20,6 +20,10 @@ pub fn param() -> BoxedStrategy<String> {
         1 => Just("007".to_string()),
         6 => (0u32..=300).prop_map(|v| v.to_string()),
         4 => pow2.prop_map(|v| v.to_string()),
+        // numbers that agree with a meaningful small value (DEC modes, statuses, SGR codes, key
+        // codes) modulo 2^8 / 2^16 / 2^32 / 2^64: a truncating cast would turn them into it
+        2 => (proptest::sample::select(vec![0u128, 1, 2, 4, 7, 25, 38, 48, 80, 97, 1000, 1003, 1006, 1049, 2004, 2026]), proptest::sample::select(vec![8u32, 16, 32, 64]))
+            .prop_map(|(m, k)| ((1u128 << k) + m).to_string()),
         1 => Just("4294967296".to_string()),
         1 => Just("18446744073709551615".to_string()),
         1 => Just("18446744073709551616".to_string()),
